@@ -141,12 +141,14 @@ class SimJob(SimProcBase):
         self.rc = None
         self.killed = False
         self.done = False
+        self.reaped = False   # somebody else waited for this child: its exit status is gone
 
     def poll(self):
         if self.vp.killed:
             raise SimKilled()
         if self.returncode is None and self.done:
-            self.returncode = self.rc
+            # (subprocess: waitpid fails with ECHILD when the child was reaped elsewhere; returncode 0)
+            self.returncode = 0 if self.reaped else self.rc
         return self.returncode
 
     def wait(self, timeout=None):
@@ -292,6 +294,7 @@ class Shell:
                stdout=w.rel(job.stdout_path) if job.stdout_path else None,
                stderr=w.rel(job.stderr_path) if job.stderr_path else None,
                pid=job.pid, dur=round(dur, 3), probe=probe)
+        w.job_started(job)
         w.at(job.finish_at, lambda: self._finish_job(job), "job_finish")
         return job
 
@@ -311,10 +314,27 @@ class Shell:
         if lst and job in lst:
             lst.remove(job)
 
+    def close_all(self):
+        for job in self.jobs:
+            f = getattr(job, "_evf", None)
+            if f is not None:
+                try:
+                    f.close()
+                except OSError:
+                    pass
+                job._evf = None
+
+    def jobs_of(self, vpid):
+        return [j for j in self.jobs if j.vp.id == vpid]
+
     def kill_jobs_of(self, vp):
         for job in self.live_jobs.pop(vp.id, []):
             if not job.done:
                 job.killed = True
+                f = getattr(job, "_evf", None)
+                if f is not None:
+                    f.close()
+                    job._evf = None
                 self.w.emit("job_killed", None, name=job.name, host=job.host, slurm_id=job.slurm_id)
 
 
@@ -359,6 +379,9 @@ class PsutilStub:
         pass
 
     class AccessDenied(Exception):
+        pass
+
+    class TimeoutExpired(Exception):
         pass
 
     CPU = ("user", "nice", "system", "idle", "iowait")
@@ -411,6 +434,26 @@ class _StubProc:
         if self.w.stat_proc_name(self.vp, self.pid) is None:
             raise PsutilStub.NoSuchProcess(self.pid)
 
+    def _zombie(self):
+        job = self.w.stat_job(self.vp, self.pid)
+        return job is not None and job.done
+
+    def _served(self, stat, v):
+        self.w.stats_served.setdefault((self.vp.id, "proc:" + self.name, stat), []).append(v)
+        return v
+
+    def wait(self, timeout=None):
+        """psutil semantics for a child of the caller: waiting reaps it (the exit status is consumed)."""
+        self._alive()
+        job = self.w.stat_job(self.vp, self.pid)
+        if job is None or not job.done:
+            if timeout is not None:
+                raise PsutilStub.TimeoutExpired(timeout)
+            raise PsutilStub.TimeoutExpired(0)
+        job.reaped = True
+        self.w.probe("child_reaped_by_monitor")
+        return job.rc
+
     def oneshot(self):
         import contextlib
 
@@ -419,11 +462,17 @@ class _StubProc:
     def cpu_percent(self, interval=None):
         self._alive()
         if interval:
-            return 0.0  # the priming call of ResourceMonitor._get_process
+            # the priming call of ResourceMonitor._get_process: psutil blocks for the interval
+            self.w.sleep(self.vp, float(interval))
+            return 0.0
+        if self._zombie():
+            return self._served("cpu_percent", 0.0)   # exited, not yet waited for: all zeros
         return self.w.stat_sample(self.vp, "proc:" + self.name, "cpu_percent")
 
     def memory_info(self):
         self._alive()
+        if self._zombie():
+            return _NT(rss=int(self._served("rss", 0.0)))
         return _NT(rss=int(self.w.stat_sample(self.vp, "proc:" + self.name, "rss") * 1000))
 
     def children(self, recursive=False):
